@@ -50,6 +50,8 @@ impl<'a> Tokenizer<'a> {
     /// * ProgramMnemonicTooLong if suffix is longer than 12 characters
     fn read_mnemonic(&mut self, mut common: bool) -> Result<Token<'a>, ErrorCode> {
         let s = self.chars.as_slice();
+        // The leading `*` of a common command is not part of the mnemonic
+        let limit = if common { 13u8 } else { 12u8 };
         let mut len = 0u8;
         while self.chars.clone().next().map_or(false, |ch| {
             ch.is_ascii_alphanumeric() || *ch == b'_' || (*ch == b'*' && common)
@@ -57,7 +59,7 @@ impl<'a> Tokenizer<'a> {
             common = false;
             self.chars.next();
             len += 1;
-            if len > 12 {
+            if len > limit {
                 return Err(ErrorCode::ProgramMnemonicTooLong);
             }
         }
